@@ -97,7 +97,7 @@ Qed.
 
 (* answerer, with a local pranswer and an empty-text answer (JSEP 5.4) *)
 Example c01_answerer_history :
-  let mid := [OCreateAnswer 32; OSetLocal (ds Pranswer 32); OSetRemote (ds Offer 16)] in
+  let mid := [OCreateAnswer 32 true; OSetLocal (ds Pranswer 32); OSetRemote (ds Offer 16)] in
   exists n1 n3,
     step (run []) (OSetRemote (ds Offer 16)) = (n1, Ok tt) /\
     never_stable as_is n1 mid /\
